@@ -27,7 +27,8 @@ What is stubbed (out of the property's scope)
 History = list of [op, args]:
   CacheCreate [a]   CacheDelete [a]   ReadyOn []   ReadyOff []
   ContainerFinishes [a, g, marker]    MonitorCleanup [a, g]
-  CleanupCompletes [k, i, g]          ManagerRestart []     Deliver []
+  CleanupCompletes [k, i, g]          ManagerRestart []     NodeStart []
+  Deliver []
 An op that is not possible in the real state (file not there, queue empty,
 container not supervised ...) is dropped; the effective history is returned.
 Trace lines carry the model's event names (Deliver -> OnCreated/OnDeleted/
@@ -332,6 +333,18 @@ class Node:
         self._watch()
         return 'ManagerRestart', []
 
+    def op_NodeStart(self):
+        """The node's services start: "On startup run.sh will clear running and
+        cleanup" (docstring of _synchronize); supervisors and tombstones are gone."""
+        env = self.mgr.tm_env
+        for d in (env.running_dir, env.cleanup_dir):
+            for f in os.listdir(d):
+                os.unlink(os.path.join(d, f))
+        self.tomb = []
+        self._start_manager()
+        self._watch()
+        return 'NodeStart', []
+
     def op_Deliver(self):
         """AppCfgMgr.run(): watch.process_events - one event."""
         while self.watch.event_list:
@@ -389,6 +402,8 @@ def enabled_ops(post, instances, maxgen, gens, late):
     for l in post['cleanup']:
         ops.append((0.35, 'CleanupCompletes', [l['n']['k'], l['n']['i'], l['n']['g']]))
     ops.append((0.8, 'ManagerRestart', []))
+    if post['apps']:
+        ops.append((0.5, 'NodeStart', []))
     if post['pending']:
         ops.append((5.0 + 2 * len(post['pending']), 'Deliver', []))
     return ops
